@@ -171,23 +171,25 @@ def interpret(c):
             out.append(["R"])
         elif t in ("o", "f"):
             act, d = s[1], s[2]
+            sh = list(s[3:4]) if t == "f" else []
+            d_key = (d, tuple(sh))
             if t == "o" and eph and not replied:
                 skipped += 1
                 continue
             if act == "UPLOAD":
-                if (t, d) in seen_up:
+                if (t, d_key) in seen_up:
                     skipped += 1
                     continue
-                seen_up.add((t, d))
+                seen_up.add((t, d_key))
             elif act in ("UPLOADED", "FAILED"):
-                if (t, d) not in seen_up or (t, d) in seen_out:
+                if (t, d_key) not in seen_up or (t, d_key) in seen_out:
                     skipped += 1
                     continue
-                seen_out.add((t, d))
+                seen_out.add((t, d_key))
             else:
                 skipped += 1
                 continue
-            out.append([t, act, d])
+            out.append([t, act, d] + sh)
         else:
             skipped += 1
     if not replied:
@@ -713,7 +715,8 @@ def _run_listen(res, c, fault, steps, w):
                 break
             is_own = s[0] == "o"
             act = s[1]
-            dnum = s[2] if is_own else FOREIGN_DIR_BASE + s[2]
+            # a foreign service uploads to its own directories, or (4th element "shared") to the same ones
+            dnum = s[2] if (is_own or (len(s) > 3 and s[3] == "shared")) else FOREIGN_DIR_BASE + s[2]
             addr = own if is_own else foreign
             hsd = onionref.hsdir_name(dnum)
             if act == "UPLOAD":
@@ -1003,7 +1006,11 @@ def _causal_trace(draw, fs, nown, nfor, outcomes=None):
         oc = outcomes[d] if outcomes else draw(st.sampled_from(["UPLOADED", "UPLOADED", "FAILED"]))
         chains.append([["o", "UPLOAD", d], ["o", oc, d]])
     for d in range(nfor):
-        chains.append([["f", "UPLOAD", d], ["f", draw(st.sampled_from(["UPLOADED", "FAILED"])), d]])
+        oc = draw(st.sampled_from(["UPLOADED", "FAILED"]))
+        if draw(st.booleans()):
+            chains.append([["f", "UPLOAD", d, "shared"], ["f", oc, d, "shared"]])
+        else:
+            chains.append([["f", "UPLOAD", d], ["f", oc, d]])
     total = sum(len(ch) for ch in chains)
     trace = []
     for _ in range(total):
